@@ -121,6 +121,11 @@ def run_path(reg, c, ex, decisions, segment=0):
         env[n] = v
         st.assume(z3.Implies(Val.is_o(v), z3.And(Val.ref(v) < st.alloc0, Val.ref(v) >= 0)))
         st.assume(v != V.ABSENT)
+    for n in c.options.get('captures', []):
+        v = z3.Const('a_' + n, Val)
+        env[n] = v
+        st.assume(z3.Implies(Val.is_o(v), z3.And(Val.ref(v) < st.alloc0, Val.ref(v) >= 0)))
+        st.assume(v != V.ABSENT)
     st.assume(st.alloc0 >= 0)
     st.env = env
     # the contract may rename nothing: its parameter list must equal the code's
@@ -129,6 +134,7 @@ def run_path(reg, c, ex, decisions, segment=0):
         cnames.append(c.node.args.vararg.arg)
     if c.node.args.kwarg:
         cnames.append(c.node.args.kwarg.arg)
+    names = [n for n in names if n not in c.options.get('captures', [])]
     if cnames != names:
         res.error = 'contract parameters %r differ from the code\'s %r' % (cnames, names)
         res.outcome = 'unsupported'
@@ -230,7 +236,8 @@ def run_path(reg, c, ex, decisions, segment=0):
                 alts = []
                 for n in c.raises_only:
                     alts.append(exc_matches(it, exc, post.ev(n)))
-                st.oblige(c.target, 'raises_only', 'exc', z3.Or(*alts) if alts else z3.BoolVal(False))
+                st.oblige(c.target, 'raises_only', 'exc', z3.Or(*alts) if alts else z3.BoolVal(False),
+                          where='raised: %s' % (outcome[2] or 'code'))
             for cl in c.clauses:
                 if cl.kind == 'ensures_raises':
                     m = exc_matches(it, exc, post.ev(cl.extra))
